@@ -989,10 +989,10 @@ fn run_tests(
                             "NO ERROR",
                             attributes.cst,
                         ));
-                    }
 
-                    if attributes.fail_fast {
-                        return Ok(false);
+                        if attributes.fail_fast {
+                            return Ok(false);
+                        }
                     }
                 } else {
                     let actual = render_test_output(
